@@ -373,7 +373,18 @@ class XYData(Generic[TData]):
         if dtype is not None:
             # Pickle protocols below 5 store an array of non-native byte order as a native one.
             args = tuple(a.astype(dtype) if a.dtype != dtype else a for a in args)
-        return cls(*args, **kwargs)
+        # The constructor adds empty units entries where there are none. A copy of an object whose
+        # entries were removed has none either (and a shallow copy shares the original's dictionary).
+        properties = kwargs.get("extended_properties")
+        absent = [
+            key
+            for key in (_UNIT_DESCRIPTION_X, _UNIT_DESCRIPTION_Y)
+            if properties is not None and key not in properties
+        ]
+        self = cls(*args, **kwargs)
+        for key in absent:
+            del self._extended_properties[key]
+        return self
 
     def __repr__(self) -> str:
         """Return repr(self)."""
